@@ -179,9 +179,12 @@ func TypeDefinitionsEqual(a, b TypeDefinition) bool {
 			}
 		}
 
+		// Computed fields are not part of a record's identity as a type. Only their names are
+		// compared: one side may be a copy of the definition taken before its expressions were
+		// resolved (e.g. the type named by a switch pattern), and resolved and unresolved
+		// expression trees are never equal.
 		for i, fa := range ta.ComputedFields {
-			fb := tb.ComputedFields[i]
-			if fa.Name != fb.Name || !ExpressionsEqual(fa.Expression, fb.Expression) {
+			if fa.Name != tb.ComputedFields[i].Name {
 				return false
 			}
 		}
